@@ -260,10 +260,10 @@ def run(ctx):
     seen = {}
     vecs = vectors(ctx)
     if ctx.quick:
-        run_families(ctx, ['vec', 'hdr', 'tx', 'misc', 'mix'], vecs, seen, 'OpForge_quick', hdr=(1, 3, 7), amt=(1, 5, 7), ntx=1, maxlen=2)
+        run_families(ctx, ['vec', 'hdr', 'tx', 'misc', 'mix'], vecs, seen, 'OpForge_quick', hdr=(1, 3, 7, 9), amt=(1, 5, 7, 8), ntx=1, maxlen=2)
     else:
         run_families(ctx, ['vec', 'misc'], vecs, seen, 'OpForge_misc')
-        run_families(ctx, ['hdr'], vecs, seen, 'OpForge_hdr', hdr=(1, 2, 3, 4, 5, 6, 7))
+        run_families(ctx, ['hdr'], vecs, seen, 'OpForge_hdr', hdr=(1, 2, 3, 4, 5, 6, 7, 8, 9))
         run_families(ctx, ['tx'], vecs, seen, 'OpForge_tx', ntx=4)
         run_families(ctx, ['mix'], vecs, seen, 'OpForge_mix', maxlen=3)
     ctx.exhaustive = True
@@ -294,7 +294,7 @@ META = {
              'validate the transcription (model bytes + signature hash to the recorded operation hash).'),
     'design_ref': 'DESIGN.md section 5 C06, A.10',
     'note': ('Trusted: base58check/prefix table and group->JSON concretisation (harness/vf/c06_ref.py), 8 fixed Micheline encodings, blake2b from hashlib. '
-             'Bounds: integer pool {0,127,128,2^14,2^63,2^64,2^64+1} (quick: 3 of them per field); 1..2 contents (3 thorough); 4 source curves, 6 destination kinds, '
+             'Bounds: integer pool {0,127,128,2^14,2^63,2^64,2^64+1,2^70,2^100+1} (quick: 4 of them per field); 1..2 contents (3 thorough); 4 source curves, 6 destination kinds, '
              '10 reserved + 2 named entrypoints x 3 values; 0..2 rollup messages; quick ~1.5k groups, thorough ~19k groups. failing_noop payload compared as text.'),
     'technique': 'TLA+ spec + TLC exhaustive model checking; spec-case replay into forge_operation_group / OperationGroup.forge; recorded mainnet operations checked against the spec',
 }
